@@ -1,4 +1,6 @@
 // Phonetic Method
+#[cfg(feature = "verif_hooks")]
+use crate::verif_fs::std_shim as std;
 use ahash::RandomState;
 use std::collections::HashMap;
 use std::fs::{write, File};
